@@ -279,7 +279,21 @@ def execute(program, prefix):
                                   % (_s(w.accepted), _s(w.need_before_close))))
                 if w.closed_at is None:
                     w.bad.append(('never-closed', 'close was requested but the endpoint is still open at quiescence'))
-        else:
+        # nothing is written after the endpoint has closed: what it still holds for writing would go out on its next use
+        if w.closed_at is not None or w.fatal is not None:
+            held = None
+            if endpoint == 'server':
+                bufs = getattr(w.comp, '_buffers', None)
+                if bufs is not None and w.sock in bufs:
+                    held = sum(len(x) for x in bufs[w.sock])
+            else:
+                buf = getattr(w.comp, '_buffer', None)
+                if buf is not None:
+                    held = sum(len(x) for x in buf)
+            if held:
+                w.bad.append(('residue-after-close', 'the closed endpoint still holds %d byte(s) queued for writing (they would be written '
+                              'on its next connection)' % held))
+        if w.fatal is not None:
             if not any(e in ('error', 'disconnect', 'disconnected', 'closed') for e in w.events):
                 w.bad.append(('fatal-unsignalled', 'send failed with %s but no error/disconnect event was fired (events %r)'
                               % (errno.errorcode.get(w.fatal), w.events)))
